@@ -13,7 +13,7 @@
   with insignificant decoration chosen per line by a `Decor`: blank and comment lines in front of the
   line, indentation, blanks around the assignment character, trailing blanks and a trailing comment.
   Values are written plain when that is unambiguous and in double quotes (quotes inside escaped by a
-  backslash) otherwise.
+  backslash, backslashes at the very end put behind the closing quote) otherwise.
 
   Core Lean only.
 -/
@@ -94,12 +94,18 @@ def escape : List UInt8 → List UInt8
   | [] => []
   | c :: rest => if c == 34 then 92 :: 34 :: escape rest else c :: escape rest
 
-def writeValue (v : List UInt8) : List UInt8 :=
-  if plainOk v then v else 34 :: escape v ++ [34]
+/-- the backslashes at the end of a value: they stay outside the quotes (a backslash in front of the
+    closing quote would escape it) -/
+def tailSlashes (v : List UInt8) : List UInt8 := (v.reverse.takeWhile (· == 92)).reverse
+/-- the value without the backslashes at its end -/
+def quotedPart (v : List UInt8) : List UInt8 := (v.reverse.dropWhile (· == 92)).reverse
 
-/-- a value the writer can express: no zero byte, and no backslash at the end when it has to be quoted -/
+def writeValue (v : List UInt8) : List UInt8 :=
+  if plainOk v then v else 34 :: escape (quotedPart v) ++ [34] ++ tailSlashes v
+
+/-- a value the writer can express: not empty (an empty value is no value) and no zero byte -/
 def valueOk (v : List UInt8) : Bool :=
-  !v.isEmpty && !v.contains 0 && (plainOk v || v.getLast? != some 92)
+  !v.isEmpty && !v.contains 0
 
 /-- names: letters, digits, `_` and `-`; not empty; short enough for an identifier -/
 def nameChar (c : UInt8) : Bool :=
